@@ -1,6 +1,52 @@
 import VtlModel.Sem.Types
-/-! Soundness of the type system of `Types.lean` for the scalar operators. -/
+/-! Soundness of the type system of `Types.lean`: operators first, then `evalS` by induction. -/
 namespace VtlModel.Sem
+
+/-! ### inversion of `hasTy` -/
+
+inductive NumV : Value → Prop
+  | null : NumV .null
+  | int (i) : NumV (.int i)
+  | num (q) : NumV (.num q)
+
+inductive IntV : Value → Prop
+  | null : IntV .null
+  | int (i) : IntV (.int i)
+
+inductive BoolV : Value → Prop
+  | null : BoolV .null
+  | bool (b) : BoolV (.bool b)
+
+inductive StrV : Value → Prop
+  | null : StrV .null
+  | str (s) : StrV (.str s)
+
+theorem inv_num (v : Value) (t : Ty) (h : v.hasTy t = true) (ht : t.numeric = true) : NumV v := by
+  cases v <;> cases t <;> simp_all [Value.hasTy, Ty.numeric] <;> constructor
+
+theorem inv_int (v : Value) (t : Ty) (h : v.hasTy t = true) (ht : t = .int ∨ t = .nul) : IntV v := by
+  rcases ht with rfl | rfl <;> cases v <;> simp_all [Value.hasTy] <;> constructor
+
+theorem inv_bool (v : Value) (t : Ty) (h : v.hasTy t = true) (ht : t = .bool ∨ t = .nul) : BoolV v := by
+  rcases ht with rfl | rfl <;> cases v <;> simp_all [Value.hasTy] <;> constructor
+
+theorem inv_str (v : Value) (t : Ty) (h : v.hasTy t = true) (ht : t = .str ∨ t = .nul) : StrV v := by
+  rcases ht with rfl | rfl <;> cases v <;> simp_all [Value.hasTy] <;> constructor
+
+theorem NumV.hasTy_num {v : Value} (h : NumV v) : v.hasTy .num = true := by cases h <;> rfl
+theorem IntV.hasTy_int {v : Value} (h : IntV v) : v.hasTy .int = true := by cases h <;> rfl
+theorem BoolV.hasTy_bool {v : Value} (h : BoolV v) : v.hasTy .bool = true := by cases h <;> rfl
+theorem StrV.hasTy_str {v : Value} (h : StrV v) : v.hasTy .str = true := by cases h <;> rfl
+
+theorem beq_or_nul (t x : Ty) (h : (t == x || t == Ty.nul) = true) : t = x ∨ t = .nul := by
+  cases t <;> cases x <;> simp_all
+
+/-- for numeric operand types, the "integer result" case means both operands are integers or null. -/
+theorem int_case (ta tb : Ty) (hn : ta.numeric = true ∧ tb.numeric = true) (h : (ta == Ty.num || tb == Ty.num) = false) :
+    (ta = .int ∨ ta = .nul) ∧ (tb = .int ∨ tb = .nul) := by
+  cases ta <;> cases tb <;> simp_all [Ty.numeric]
+
+/-! ### operators -/
 
 theorem unop_sound (op : UnOp) (v w : Value) (t τ : Ty) (ht : tyUn op t = some τ) (hv : v.hasTy t = true)
     (h : unop op v = .ok w) : w.hasTy τ = true := by
@@ -9,15 +55,363 @@ theorem unop_sound (op : UnOp) (v w : Value) (t τ : Ty) (ht : tyUn op t = some 
     (try (subst_vars; simp_all [Value.hasTy])) <;>
     (try (split at ht <;> simp_all [Value.hasTy]))
 
-theorem unop_no_type_error (op : UnOp) (v : Value) (t τ : Ty) (ht : tyUn op t = some τ) (hv : v.hasTy t = true) :
-    unop op v ≠ .error .type := by
-  cases op <;> cases v <;> cases t <;> simp_all [tyUn, unop, Value.hasTy, Ty.numeric, not3]
+theorem arith_int (fi : Int → Int → Int) (fq : Rat → Rat → Rat) (a b w : Value) (ha : IntV a) (hb : IntV b)
+    (h : arith fi fq a b = .ok w) : IntV w := by
+  cases ha <;> cases hb <;> simp [arith] at h <;> subst h <;> constructor
 
-theorem arith_sound (fi : Int → Int → Int) (fq : Rat → Rat → Rat) (a b w : Value) (ta tb : Ty)
-    (hn : ta.numeric = true ∧ tb.numeric = true) (ha : a.hasTy ta = true) (hb : b.hasTy tb = true)
-    (h : arith fi fq a b = .ok w) :
-    w.hasTy (if ta == .num || tb == .num then .num else .int) = true := by
-  cases a <;> cases b <;> cases ta <;> cases tb <;>
-    simp_all [arith, Value.hasTy, Ty.numeric] <;> (subst_vars; simp [Value.hasTy])
+theorem arith_num (fi : Int → Int → Int) (fq : Rat → Rat → Rat) (a b w : Value) (ha : NumV a) (hb : NumV b)
+    (h : arith fi fq a b = .ok w) : NumV w := by
+  cases ha <;> cases hb <;> simp [arith] at h <;> subst h <;> constructor
+
+theorem vmod_int (a b w : Value) (ha : IntV a) (hb : IntV b) (h : vmod a b = .ok w) : IntV w := by
+  cases ha <;> cases hb <;> simp [vmod] at h
+  · subst h; constructor
+  · subst h; constructor
+  · subst h; constructor
+  · split at h <;> (subst h; constructor)
+
+theorem vmod_num (a b w : Value) (ha : NumV a) (hb : NumV b) (h : vmod a b = .ok w) : NumV w := by
+  cases ha <;> cases hb <;> simp [vmod, Value.toRat?] at h <;>
+    (try (subst h; constructor)) <;>
+    (repeat' (split at h)) <;> (try (cases h)) <;> (try (subst h; constructor)) <;>
+    (try (simp at h; subst h; constructor)) <;> (try constructor)
+
+theorem vdiv_num (a b w : Value) (ha : NumV a) (hb : NumV b) (h : vdiv a b = .ok w) : NumV w := by
+  cases ha <;> cases hb <;> simp [vdiv, Value.toRat?] at h <;>
+    (try (subst h; constructor)) <;>
+    (repeat' (split at h)) <;> (try (cases h)) <;> (try (subst h; constructor)) <;>
+    (try (simp at h; subst h; constructor)) <;> (try constructor)
+
+theorem vpower_num (a b w : Value) (ha : NumV a) (hb : IntV b) (h : vpower a b = .ok w) : NumV w := by
+  cases ha <;> cases hb <;> simp [vpower, Value.toRat?] at h <;>
+    (try (subst h; constructor)) <;>
+    (repeat' (split at h)) <;> (try (cases h)) <;> (try (subst h; constructor)) <;>
+    (try (simp at h; subst h; constructor)) <;> (try constructor)
+
+theorem cmpOp_sound (f : Ordering → Bool) (a b w : Value) (h : cmpOp f a b = .ok w) : BoolV w := by
+  unfold cmpOp at h
+  cases hc : cmp? a b with
+  | error e => simp [hc, bind, Except.bind] at h
+  | ok o =>
+    cases o with
+    | none => simp [hc, bind, Except.bind, pure, Except.pure] at h; subst h; constructor
+    | some x => simp [hc, bind, Except.bind, pure, Except.pure] at h; subst h; constructor
+
+theorem and3_bool (a b w : Value) (ha : BoolV a) (hb : BoolV b) (h : and3 a b = .ok w) : BoolV w := by
+  cases ha <;> cases hb <;> (try (rename_i x y; cases x <;> cases y)) <;> (try (rename_i x; cases x)) <;>
+    simp [and3] at h <;> subst h <;> constructor
+
+theorem or3_bool (a b w : Value) (ha : BoolV a) (hb : BoolV b) (h : or3 a b = .ok w) : BoolV w := by
+  cases ha <;> cases hb <;> (try (rename_i x y; cases x <;> cases y)) <;> (try (rename_i x; cases x)) <;>
+    simp [or3] at h <;> subst h <;> constructor
+
+theorem xor3_bool (a b w : Value) (ha : BoolV a) (hb : BoolV b) (h : xor3 a b = .ok w) : BoolV w := by
+  cases ha <;> cases hb <;> simp [xor3] at h <;> subst h <;> constructor
+
+theorem concat_str (a b w : Value) (ha : StrV a) (hb : StrV b) (h : concat a b = .ok w) : StrV w := by
+  cases ha <;> cases hb <;> simp [concat] at h <;> subst h <;> constructor
+
+theorem binop_sound (op : BinOp) (a b w : Value) (ta tb τ : Ty) (ht : tyBin op ta tb = some τ)
+    (ha : a.hasTy ta = true) (hb : b.hasTy tb = true) (h : binop op a b = .ok w) : w.hasTy τ = true := by
+  cases op
+  case add | sub | mul =>
+    simp only [tyBin] at ht
+    split at ht
+    · rename_i hn
+      have hn' : ta.numeric = true ∧ tb.numeric = true := by simpa using hn
+      cases hnum : (ta == Ty.num || tb == Ty.num) with
+      | true =>
+        simp [hnum] at ht; subst ht
+        exact (arith_num _ _ a b w (inv_num a ta ha hn'.1) (inv_num b tb hb hn'.2) h).hasTy_num
+      | false =>
+        simp [hnum] at ht; subst ht
+        obtain ⟨h1, h2⟩ := int_case ta tb hn' hnum
+        exact (arith_int _ _ a b w (inv_int a ta ha h1) (inv_int b tb hb h2) h).hasTy_int
+    · cases ht
+  case mod =>
+    simp only [tyBin] at ht
+    split at ht
+    · rename_i hn
+      have hn' : ta.numeric = true ∧ tb.numeric = true := by simpa using hn
+      cases hnum : (ta == Ty.num || tb == Ty.num) with
+      | true =>
+        simp [hnum] at ht; subst ht
+        exact (vmod_num a b w (inv_num a ta ha hn'.1) (inv_num b tb hb hn'.2) h).hasTy_num
+      | false =>
+        simp [hnum] at ht; subst ht
+        obtain ⟨h1, h2⟩ := int_case ta tb hn' hnum
+        exact (vmod_int a b w (inv_int a ta ha h1) (inv_int b tb hb h2) h).hasTy_int
+    · cases ht
+  case div =>
+    simp only [tyBin] at ht
+    split at ht
+    · rename_i hn
+      have hn' : ta.numeric = true ∧ tb.numeric = true := by simpa using hn
+      simp at ht; subst ht
+      exact (vdiv_num a b w (inv_num a ta ha hn'.1) (inv_num b tb hb hn'.2) h).hasTy_num
+    · cases ht
+  case eq | ne | lt | le | gt | ge =>
+    simp only [tyBin] at ht
+    cases hj : Ty.join ta tb with
+    | none => simp [hj] at ht
+    | some tj =>
+      simp [hj] at ht
+      subst ht
+      exact (cmpOp_sound _ a b w h).hasTy_bool
+  case and =>
+    simp only [tyBin] at ht
+    split at ht
+    · rename_i hc
+      simp at ht; subst ht
+      have hc' := Bool.and_eq_true_iff.mp hc
+      exact (and3_bool a b w (inv_bool a ta ha (beq_or_nul _ _ hc'.1)) (inv_bool b tb hb (beq_or_nul _ _ hc'.2)) h).hasTy_bool
+    · cases ht
+  case or =>
+    simp only [tyBin] at ht
+    split at ht
+    · rename_i hc
+      simp at ht; subst ht
+      have hc' := Bool.and_eq_true_iff.mp hc
+      exact (or3_bool a b w (inv_bool a ta ha (beq_or_nul _ _ hc'.1)) (inv_bool b tb hb (beq_or_nul _ _ hc'.2)) h).hasTy_bool
+    · cases ht
+  case xor =>
+    simp only [tyBin] at ht
+    split at ht
+    · rename_i hc
+      simp at ht; subst ht
+      have hc' := Bool.and_eq_true_iff.mp hc
+      exact (xor3_bool a b w (inv_bool a ta ha (beq_or_nul _ _ hc'.1)) (inv_bool b tb hb (beq_or_nul _ _ hc'.2)) h).hasTy_bool
+    · cases ht
+  case concat =>
+    simp only [tyBin] at ht
+    split at ht
+    · rename_i hc
+      simp at ht; subst ht
+      have hc' := Bool.and_eq_true_iff.mp hc
+      exact (concat_str a b w (inv_str a ta ha (beq_or_nul _ _ hc'.1)) (inv_str b tb hb (beq_or_nul _ _ hc'.2)) h).hasTy_str
+    · cases ht
+  case power =>
+    simp only [tyBin] at ht
+    split at ht
+    · rename_i hc
+      simp at ht; subst ht
+      have hc' := Bool.and_eq_true_iff.mp hc
+      exact (vpower_num a b w (inv_num a ta ha hc'.1) (inv_int b tb hb (beq_or_nul _ _ hc'.2)) h).hasTy_num
+    · cases ht
+  case log => simp [tyBin] at ht
+  case nvl =>
+    simp only [tyBin] at ht
+    obtain ⟨h1, h2⟩ := join_ub ta tb τ ht
+    cases a <;> simp [binop, nvl] at h <;> subst h
+    · exact hasTy_mono _ _ _ h2 hb
+    all_goals exact hasTy_mono _ _ _ h1 ha
+
+end VtlModel.Sem
+
+namespace VtlModel.Sem
+
+theorem between_bool (x lo hi w : Value) (h : between x lo hi = .ok w) : BoolV w := by
+  unfold between at h
+  split at h
+  all_goals (try (simp only [pure, Except.pure, Except.ok.injEq] at h; subst h; constructor))
+  simp only [bind, Except.bind] at h
+  cases h1 : cmp? lo x with
+  | error e => simp [h1] at h
+  | ok o1 =>
+    cases h2 : cmp? x hi with
+    | error e => simp [h1, h2] at h
+    | ok o2 =>
+      simp only [h1, h2] at h
+      cases o1 <;> cases o2 <;> simp [pure, Except.pure] at h <;> subst h <;> constructor
+
+theorem vin_bool (x : Value) (xs : List Value) (w : Value) (h : vin x xs = .ok w) : BoolV w := by
+  unfold vin at h
+  cases x <;> simp at h <;> (try (subst h; constructor)) <;>
+    (repeat' (split at h)) <;> (simp at h; subst h; constructor)
+
+theorem not3_bool (v w : Value) (hv : BoolV v) (h : not3 v = .ok w) : BoolV w := by
+  cases hv <;> simp [not3] at h <;> subst h <;> constructor
+
+theorem substr_str (s a b w : Value) (hs : StrV s) (h : substr s a b = .ok w) : StrV w := by
+  cases hs <;> simp [substr] at h
+  · subst h; constructor
+  · split at h <;> (simp at h; subst h; constructor)
+
+theorem replace_str (s a b w : Value) (hs : StrV s) (ha : StrV a) (hb : StrV b) (h : replace s a b = .ok w) : StrV w := by
+  cases hs <;> cases ha <;> cases hb <;> simp [replace] at h <;> subst h <;> constructor
+
+theorem roundV_num (tr : Bool) (x n w : Value) (hx : NumV x) (h : roundV tr x n = .ok w) : NumV w := by
+  cases hx
+  · simp [roundV] at h; subst h; constructor
+  all_goals
+    simp only [roundV, Value.toRat?] at h
+    repeat' split at h
+    all_goals first | (cases h; done) | (simp only [Except.ok.injEq] at h; subst h; constructor)
+
+/-- **Type soundness of row-level expressions**: a well-typed expression evaluated on a row that
+conforms to its declared types yields, when it yields a value, a value of the predicted type. -/
+theorem evalS_sound (Γ : TEnv) (r : Row) (h1 h2 : Value) (t1 t2 : Ty) (hr : RowTyped Γ r)
+    (hh1 : h1.hasTy t1 = true) (hh2 : h2.hasTy t2 = true) :
+    ∀ (e : SExpr) (τ : Ty) (v : Value), typeOfS Γ t1 t2 e = some τ → evalS r h1 h2 e = .ok v → v.hasTy τ = true := by
+  intro e
+  induction e with
+  | const c => intro τ v ht hv; simp [typeOfS] at ht; simp [evalS] at hv; subst ht; subst hv; exact hasTy_typeOfValue c
+  | col n => intro τ v ht hv; simp [typeOfS] at ht; simp [evalS] at hv; subst hv; exact hr n τ ht
+  | hole => intro τ v ht hv; simp [typeOfS] at ht; simp [evalS] at hv; subst ht; subst hv; exact hh1
+  | hole2 => intro τ v ht hv; simp [typeOfS] at ht; simp [evalS] at hv; subst ht; subst hv; exact hh2
+  | un op e ih =>
+    intro τ v ht hv
+    simp only [typeOfS] at ht
+    cases hte : typeOfS Γ t1 t2 e with
+    | none => simp [hte] at ht
+    | some te =>
+      simp [hte] at ht
+      simp only [evalS] at hv
+      cases hve : evalS r h1 h2 e with
+      | error er => simp [hve, bind, Except.bind] at hv
+      | ok ve =>
+        simp [hve, bind, Except.bind] at hv
+        exact unop_sound op ve v te τ ht (ih te ve hte hve) hv
+  | bin op a b iha ihb =>
+    intro τ v ht hv
+    simp only [typeOfS] at ht
+    cases hta : typeOfS Γ t1 t2 a with
+    | none => simp [hta] at ht
+    | some ta =>
+      cases htb : typeOfS Γ t1 t2 b with
+      | none => simp [hta, htb] at ht
+      | some tb =>
+        simp [hta, htb] at ht
+        simp only [evalS] at hv
+        cases hva : evalS r h1 h2 a with
+        | error er => simp [hva, bind, Except.bind] at hv
+        | ok va =>
+          cases hvb : evalS r h1 h2 b with
+          | error er => simp [hva, hvb, bind, Except.bind] at hv
+          | ok vb =>
+            simp [hva, hvb, bind, Except.bind] at hv
+            exact binop_sound op va vb v ta tb τ ht (iha ta va hta hva) (ihb tb vb htb hvb) hv
+  | tern op a b c iha ihb ihc =>
+    intro τ v ht hv
+    cases op
+    case ite =>
+      simp only [typeOfS] at ht
+      cases hta : typeOfS Γ t1 t2 a with
+      | none => simp [hta] at ht
+      | some ta =>
+        simp [hta] at ht
+        obtain ⟨_, ht⟩ := ht
+        cases htb : typeOfS Γ t1 t2 b with
+        | none => simp [htb] at ht
+        | some tb =>
+          cases htc : typeOfS Γ t1 t2 c with
+          | none => simp [htb, htc] at ht
+          | some tc =>
+            simp [htb, htc] at ht
+            obtain ⟨l1, l2⟩ := join_ub tb tc τ ht
+            simp only [evalS] at hv
+            cases hva : evalS r h1 h2 a with
+            | error er => simp [hva, bind, Except.bind] at hv
+            | ok va =>
+              simp [hva, bind, Except.bind] at hv
+              split at hv
+              · exact hasTy_mono _ _ _ l1 (ihb tb v htb hv)
+              · exact hasTy_mono _ _ _ l2 (ihc tc v htc hv)
+              · exact hasTy_mono _ _ _ l2 (ihc tc v htc hv)
+              · cases hv
+    case between =>
+      simp only [evalS] at hv
+      cases hva : evalS r h1 h2 a with
+      | error er => simp [hva, bind, Except.bind] at hv
+      | ok va =>
+        cases hvb : evalS r h1 h2 b with
+        | error er => simp [hva, hvb, bind, Except.bind] at hv
+        | ok vb =>
+          cases hvc : evalS r h1 h2 c with
+          | error er => simp [hva, hvb, hvc, bind, Except.bind] at hv
+          | ok vc =>
+            simp [hva, hvb, hvc, bind, Except.bind] at hv
+            have hb := (between_bool va vb vc v hv).hasTy_bool
+            simp only [typeOfS] at ht
+            cases hta : typeOfS Γ t1 t2 a <;> cases htb : typeOfS Γ t1 t2 b <;> cases htc : typeOfS Γ t1 t2 c <;>
+              simp [hta, htb, htc] at ht
+            rename_i ta tb tc
+            cases hj1 : Ty.join tb ta <;> cases hj2 : Ty.join ta tc <;> simp [hj1, hj2] at ht
+            subst ht; exact hb
+    case substr =>
+      simp only [typeOfS] at ht
+      cases hta : typeOfS Γ t1 t2 a <;> cases htb : typeOfS Γ t1 t2 b <;> cases htc : typeOfS Γ t1 t2 c <;>
+        simp [hta, htb, htc] at ht
+      rename_i ta tb tc
+      simp only [evalS] at hv
+      cases hva : evalS r h1 h2 a with
+      | error er => simp [hva, bind, Except.bind] at hv
+      | ok va =>
+        cases hvb : evalS r h1 h2 b with
+        | error er => simp [hva, hvb, bind, Except.bind] at hv
+        | ok vb =>
+          cases hvc : evalS r h1 h2 c with
+          | error er => simp [hva, hvb, hvc, bind, Except.bind] at hv
+          | ok vc =>
+            simp [hva, hvb, hvc, bind, Except.bind] at hv
+            obtain ⟨hs, rfl⟩ := ht
+            exact (substr_str va vb vc v (inv_str va ta (iha ta va hta hva) (by
+              rcases hs with h | h <;> simp [h])) hv).hasTy_str
+    case replace =>
+      simp only [typeOfS] at ht
+      cases hta : typeOfS Γ t1 t2 a <;> cases htb : typeOfS Γ t1 t2 b <;> cases htc : typeOfS Γ t1 t2 c <;>
+        simp [hta, htb, htc] at ht
+      rename_i ta tb tc
+      simp only [evalS] at hv
+      cases hva : evalS r h1 h2 a with
+      | error er => simp [hva, bind, Except.bind] at hv
+      | ok va =>
+        cases hvb : evalS r h1 h2 b with
+        | error er => simp [hva, hvb, bind, Except.bind] at hv
+        | ok vb =>
+          cases hvc : evalS r h1 h2 c with
+          | error er => simp [hva, hvb, hvc, bind, Except.bind] at hv
+          | ok vc =>
+            simp [hva, hvb, hvc, bind, Except.bind] at hv
+            obtain ⟨⟨⟨hsa, hsb⟩, hsc⟩, rfl⟩ := ht
+            exact (replace_str va vb vc v
+              (inv_str va ta (iha ta va hta hva) (by rcases hsa with h | h <;> simp [h]))
+              (inv_str vb tb (ihb tb vb htb hvb) (by rcases hsb with h | h <;> simp [h]))
+              (inv_str vc tc (ihc tc vc htc hvc) (by rcases hsc with h | h <;> simp [h])) hv).hasTy_str
+  | isin neg x vs ih =>
+    intro τ v ht hv
+    simp only [typeOfS] at ht
+    cases htx : typeOfS Γ t1 t2 x with
+    | none => simp [htx] at ht
+    | some tx =>
+      simp [htx] at ht; subst ht
+      simp only [evalS] at hv
+      cases hvx : evalS r h1 h2 x with
+      | error er => simp [hvx, bind, Except.bind] at hv
+      | ok vx =>
+        simp [hvx, bind, Except.bind] at hv
+        split at hv
+        · unfold vnotin at hv
+          cases hin : vin vx vs with
+          | error er => simp [hin, bind, Except.bind] at hv
+          | ok wi =>
+            simp [hin, bind, Except.bind] at hv
+            exact (not3_bool wi v (vin_bool vx vs wi hin) hv).hasTy_bool
+        · exact (vin_bool vx vs v hv).hasTy_bool
+  | round tr x n ihx ihn =>
+    intro τ v ht hv
+    simp only [typeOfS] at ht
+    cases htx : typeOfS Γ t1 t2 x <;> cases htn : typeOfS Γ t1 t2 n <;> simp [htx, htn] at ht
+    rename_i tx tn
+    obtain ⟨hnum, rfl⟩ := ht
+    simp only [evalS] at hv
+    cases hvx : evalS r h1 h2 x with
+    | error er => simp [hvx, bind, Except.bind] at hv
+    | ok vx =>
+      cases hvn : evalS r h1 h2 n with
+      | error er => simp [hvx, hvn, bind, Except.bind] at hv
+      | ok vn =>
+        simp [hvx, hvn, bind, Except.bind] at hv
+        exact (roundV_num tr vx vn v (inv_num vx tx (ihx tx vx htx hvx) hnum) hv).hasTy_num
 
 end VtlModel.Sem
